@@ -409,6 +409,44 @@ theorem fatal_is_noop (m : Machine F K) (op : Op F K) (round : String)
           · simp [outcome, lookup_put_self]
           · split <;> simp [outcome, lookup_put_self]
 
+/-! ### signing requests (not logged) -/
+
+/-- a signing request changes nothing on the machine (the hypothesis `UnloggedPure` of `Props/C12.lean`, for the model of
+the real handler) -/
+theorem sign_changes_nothing (m : Machine F K) (round : String) (payloadOk : Bool) (msgs : Option Nat) :
+    (signOp m round payloadOk msgs).1 = m := by
+  unfold signOp
+  repeat (first | rfl | split)
+
+/-- after stop + replay a signing request is answered as by the machine that never stopped: the same own index, the same
+share under the partial signatures -/
+theorem signs_alike_after_replay (me : K) (ops : List (Op F K)) (round : String) (payloadOk : Bool) (msgs : Option Nat) :
+    signOp (run (stop (run (fresh me : Machine F K) ops)) ops) round payloadOk msgs = signOp (run (fresh me) ops) round payloadOk msgs := by
+  rw [replay_is_identity]
+
+/-- a signing request with something to sign is answered only by a machine that holds both the round's instance (volatile:
+gone after a stop until the log is replayed) and its key ring -/
+theorem sign_needs_instance_and_ring (m : Machine F K) (round : String) (k pid : Nat) (sh : Option F)
+    (h : (signOp m round true (some (k + 1))).2 = Res.partials pid sh (k + 1)) :
+    (∃ i, lookup round m.insts = some i ∧ i.pid = pid) ∧ (∃ kr, lookup round m.rings = some kr ∧ sh = some kr.share) := by
+  unfold signOp at h
+  simp only [Bool.not_true, Bool.false_eq_true, ↓reduceIte] at h
+  cases hi : lookup round m.insts with
+  | none => simp [hi] at h
+  | some i =>
+    simp only [hi] at h
+    cases hr : lookup round m.rings with
+    | none => simp [hr] at h
+    | some kr =>
+      simp only [hr, Res.partials.injEq] at h
+      exact ⟨⟨i, rfl, h.1⟩, ⟨kr, rfl, h.2.1.symm⟩⟩
+
+/-- right after a stop, before the replay, nothing can be signed (seed C20i: a machine whose instance is never rebuilt) -/
+theorem stopped_machine_cannot_sign (m : Machine F K) (round : String) (k : Nat) :
+    (signOp (stop m) round true (some (k + 1))).2 = Res.err := by
+  unfold signOp stop
+  simp [lookup]
+
 /-- the hypotheses are met: the two-party round of `Model/AirDkg.lean`, stopped after its deals step and replayed -/
 example : run (stop (run (fresh 1 : Machine Int Nat) exOps)) exOps = run (fresh 1) exOps := replay_is_identity 1 exOps
 example : (run (fresh 1 : Machine Int Nat) exOps).insts ≠ [] := by decide
